@@ -262,7 +262,10 @@ class Stacker(Transformer):
         has_only_one_sample_dim = len(self.dims_mapping[sample_name]) == 1
 
         if has_only_one_sample_dim:
-            X = X.rename({sample_name: self.dims_mapping[sample_name][0]})
+            # Scores passed by the user already carry the original dimension name
+            if sample_name in X.dims:
+                if self.dims_mapping[sample_name][0] != sample_name:
+                    X = X.rename({sample_name: self.dims_mapping[sample_name][0]})
 
         ds: DataSet = X.to_unstacked_dataset(feature_name, "variable").unstack()
         ds = self._reorder_dims(ds)
